@@ -54,7 +54,8 @@ def gen_case(rng, quick=True, impl=None, consts=None, pes=None):
                 pos=[rs(dyadic(rng, -1, 1, 2)) for _ in range(n)], tangent=[rs(dyadic(rng, -1, 1, 2)) for _ in range(n)],
                 newpos=[rs(dyadic(rng, -1, 1, 2)) for _ in range(n)],
                 constants=sorted(consts), point_estimates=sorted(pes), mirror=rng.random() < 0.7,
-                n_samples=rng.randint(1, 2), seed=rng.randint(0, 2 ** 31 - 1))
+                n_samples=rng.randint(1, 2), seed=rng.randint(0, 2 ** 31 - 1),
+                kl_map=rng.choice(["vmap", "lmap", "smap"]), ovi_jit=rng.random() < 0.4)
 
 
 def _split(c, v):
@@ -186,7 +187,9 @@ def real_jax(c):
         p = mk(fll(c["pos"]))
         pe = tuple(c["point_estimates"])
         var = [k for k in KEYS if k not in c["constants"]]
-        ovi = jft.OptimizeVI(lh, n_total_iterations=1, jit=False, linear_minimizer_jit=False)
+        kmap = {"vmap": jax.vmap, "lmap": "lmap", "smap": "smap"}[c.get("kl_map", "vmap")]
+        ovi = jft.OptimizeVI(lh, n_total_iterations=1, jit=bool(c.get("ovi_jit", False)), linear_minimizer_jit=False,
+                             kl_map=kmap)
         keys = jax.random.split(jax.random.PRNGKey(c["seed"]), c["n_samples"])
         cg_kw = dict(absdelta=1e-14, maxiter=200, miniter=2)
         smp, _ = ovi.draw_linear_samples(p, keys, point_estimates=pe, cg_kwargs=cg_kw)
@@ -326,6 +329,8 @@ def run(ctx):
         ctx.stat(f"impl={c['impl']}")
         ctx.stat(f"constants={len(c['constants'])},pe={len(c['point_estimates'])}")
         ctx.stat(f"mirror={c['mirror'] or c['impl'] == 'jax'}")
+        if c["impl"] == "jax":
+            ctx.stat(f"options:kl_map={c['kl_map']},jit={c['ovi_jit']}")
         res = oracle(c)
         if res is not None:
             ctx.counterexample(c, *res)
